@@ -65,6 +65,19 @@ CHECKS = {
         note='Pairs (not triples) of atoms exhaustively in thorough, half of them in quick; complement laws are relative to the '
              'universe a top-level * has under the same namespace map; one fixed document per kind.',
         technique='TLA+ design model (positive+negative) checked by TLC; law-level TLC trace validation of recorded selects with inferred atom rows'),
+    'C15': dict(
+        category='model_checking',
+        text='Cache.tla is the LRU machine (Compile/Purge/PassSame/PassExtra) with T-LRU invariants (bounded, no duplicates, '
+             'purge empties, cache = the most recent K distinct keys) checked by TLC; every behaviour of depth 3-4 (BFS) and sampled '
+             'behaviours of depth 9-14 (-simulate) are replayed into compile()/purge() with a model key concretised as a block of 250 '
+             'patterns (so the real lru_cache(500) is observed as K=2); after every step cache_info() must equal the model state, the '
+             'object must equal a fresh parse, == / hash must agree with model-key equality for every pair returned so far '
+             '(including keys equal up to map insertion order), and every IR node must be hashable, reject setattr/delattr, and '
+             'survive pickle/copy/deepcopy with equal select results.',
+        design_ref='§6 C15',
+        note='LRU bound observed through blocks (all-or-nothing); 5 model keys differing in one argument each + order variants; '
+             'bool-vs-int flags and attribute-level access to the internal mapping objects are not gated.',
+        technique='TLA+ LRU state machine, TLC BFS + simulation behaviours replayed step-by-step into the real cache with cache_info() as state projection'),
 }
 
 PENDING = {}
